@@ -23,10 +23,10 @@ class Undecided(Exception):
 
 class Job:
     def __init__(self, name, tu, root, tier='R', header=None, harness=None, replace=(), stubs=(), width=None,
-                 loop_contracts=False, unwindset=(), expected_wrap=(), timeout=300, defines=(), backend='sat',
+                 loop_contracts=False, unwindset=(), expected_wrap=(), timeout=1500, defines=(), backend='sat',
                  min_obligations=1, reach=('return',), enforce=True, pre_includes=('stubs/gmp_types.h',),
                  checks=None, proves='', entry_hook=None, replay=None, opaque=(), extra_roots=(), no_reach_return=False,
-                 object_bits=None, bounded_note=None, nondet_static=False, aux_tu=None, throwing_stubs=(), ghost_buffers=None):
+                 object_bits=None, bounded_note=None, nondet_static=False, aux_tu=None, throwing_stubs=(), ghost_buffers=None, weight=1, default_unwind=None):
         self.__dict__.update(locals()); del self.__dict__['self']
 
 class Obligation:
@@ -204,6 +204,7 @@ def run_job(sess, job):
         cmd = ['cbmc', os.path.join(d, cur), '--no-malloc-may-fail', '--no-standard-checks', '--json-ui', '--verbosity', '6']
         if not (job.enforce or job.replace or job.loop_contracts): cmd += ['--function', 'harness']
         if job.unwindset and not job.loop_contracts: cmd += ['--unwindset', ','.join(job.unwindset), '--unwinding-assertions']
+        if getattr(job, 'default_unwind', None): cmd += ['--unwind', str(job.default_unwind)]   # loops not named in the unwindset (new loops in changed code): bounded too, assertion on
         if job.object_bits: cmd += ['--object-bits', str(job.object_bits)]
         if job.backend == 'z3': cmd += ['--z3']
         elif job.backend == 'cvc5': cmd += ['--cvc5']
@@ -286,8 +287,13 @@ def run_jobs(sess, jobs, workers=None):
             try: sess.tu(t)
             except Exception: pass
         list(ex.map(d, tus))
+    # long jobs first, so that the tail of the run is not one slow solver call
+    order = sorted(range(len(jobs)), key=lambda k: -getattr(jobs[k], 'weight', 1))
+    out = [None] * len(jobs)
     with ThreadPoolExecutor(max_workers=workers) as ex:
-        return list(ex.map(lambda j: run_job(sess, j), jobs))
+        for k, r in zip(order, ex.map(lambda k: run_job(sess, jobs[k]), order)):
+            out[k] = r
+    return out
 
 # ------------------------------------------------------------------ trace helpers
 def trace_values(trace, names=None, prefix=None):
